@@ -238,3 +238,58 @@ func (w *World) UngateDLQTemplate() {
 
 // Logger returns a no-op logger for services built directly by drivers.
 func (w *World) Logger() log.CtxLogger { return log.Nop() }
+
+// SetFault changes a fault knob of a fake while the scenario runs.
+func (w *World) SetFault(conn, knob, val string, n int) {
+	if s := w.Source(conn); s != nil {
+		s.mu.Lock()
+		switch knob {
+		case "open_err":
+			s.Cfg.OpenErr = val
+		case "read_err":
+			s.Cfg.ReadErr = val
+			s.Cfg.ReadErrAt = n
+		case "teardown_err":
+			s.Cfg.TeardownErr = val
+		}
+		s.mu.Unlock()
+		return
+	}
+	if d := w.Dest(conn); d != nil {
+		d.mu.Lock()
+		switch knob {
+		case "open_err":
+			d.Cfg.OpenErr = val
+		case "write_err":
+			d.Cfg.WriteErr = val
+			d.Cfg.WriteErrAt = n
+		}
+		d.mu.Unlock()
+	}
+}
+
+// ClearFaults removes every scripted fault and makes extra more records available at each source.
+func (w *World) ClearFaults(extra int) {
+	for _, s := range w.Sources() {
+		s.mu.Lock()
+		s.Cfg.OpenErr, s.Cfg.ReadErr, s.Cfg.ReadErrAt, s.Cfg.TeardownErr = "", "", 0, ""
+		s.Cfg.EmptyPosAt, s.Cfg.DupPosAt, s.Cfg.FailAckSends = 0, 0, 0
+		s.Cfg.N += extra
+		s.Cfg.Gated = false
+		s.mu.Unlock()
+	}
+	for _, d := range append(w.Dests(), w.DLQs()...) {
+		d.mu.Lock()
+		d.Cfg.OpenErr, d.Cfg.WriteErr, d.Cfg.WriteErrAt, d.Cfg.Reply, d.Cfg.TeardownErr = "", "", 0, "", ""
+		d.Cfg.Outcomes = nil
+		d.Cfg.Gated = false
+		d.mu.Unlock()
+	}
+	w.mu.Lock()
+	w.dlqCfg = DestCfg{}
+	for _, p := range w.procs {
+		p.OpenErr, p.OpenErrGen, p.TeardownErr, p.Gated = "", "", "", false
+		p.Results, p.Short, p.Extra, p.Default = nil, nil, nil, "pass"
+	}
+	w.mu.Unlock()
+}
